@@ -194,10 +194,55 @@ theorem newick_delivered_usable (b : List UInt8) (rs : List Readers.Rec) (_h : R
   fun _ _ t _ _ => delivered_usable t
 
 /-- "either reports an error or delivers trees", multi-tree Newick: the reader never ends without a record
-    (for Nexus and PhyloXML streams the code sends no record when the document holds no tree: see the oracle
-    clause `reportsOrDelivers` and the finding `Empty-stream-without-error`) -/
+    (oracle clause `reportsOrDelivers`; the other stream readers: `nexus_multi_reports_or_delivers` …) -/
 theorem multi_reports_or_delivers (chunks : List Readers.Chunk) (rs : List Readers.Rec) (h : Readers.multiNewick chunks = .ok rs) :
     rs ≠ [] := (Readers.multiNewick_shape chunks rs h).2.2
+
+/-- … the Nexus stream reader (since 78cdd07 a document without any tree is reported as an error record) -/
+theorem nexus_multi_reports_or_delivers (b : List UInt8) (rs : List Readers.Rec) (h : Readers.nexusMulti b = .ok rs) : rs ≠ [] := by
+  unfold Readers.nexusMulti at h
+  split at h
+  · cases h
+  · cases h
+  · cases h; simp
+  · cases h; simp
+  · rename_i ts hne _
+    cases h
+    cases ts with
+    | nil => exact absurd rfl (hne)
+    | cons t r => simp [Readers.ofNTrees]
+
+/-- … the PhyloXML stream reader -/
+theorem phyloxml_multi_reports_or_delivers (ps : List Readers.Clade) (rs : List Readers.Rec) (h : Readers.phyloxmlMulti ps = .ok rs) : rs ≠ [] := by
+  unfold Readers.phyloxmlMulti at h
+  split at h
+  · cases h; simp
+  · rename_i p tl
+    split at h
+    · rename_i rs' hr
+      cases h
+      unfold Readers.pxRecs at hr
+      split at hr
+      · cases hr
+      · split at hr
+        · cases hr; simp
+        · rename_i hne; exact absurd hr (by intro h'; exact hne _ h')
+      · split at hr
+        · cases hr; simp
+        · rename_i hne; exact absurd hr (by intro h'; exact hne _ h')
+    · cases h
+    · cases h
+
+/-- … the Nextstrain stream reader (always exactly one record) -/
+theorem nextstrain_multi_reports_or_delivers (v : String) (n : Readers.NsNode) (rs : List Readers.Rec)
+    (h : Readers.nextstrainMulti v n = .ok rs) : rs ≠ [] := by
+  unfold Readers.nextstrainMulti at h
+  split at h <;> (cases h; simp)
+
+/-- "never kills the process": the packages of the readers (io/newick, io/nexus, io/fileutils, io/utils, io/phyloxml,
+    io/nextstrain) hold no call of os.Exit / log.Fatal* / log.Panic* / ExitWithMessage — counted in the working tree on
+    every run (harness/c02/extract.go → Gen/C02Goroutine.lean) -/
+theorem readers_never_exit : Gen.C02.exitCalls = 0 := by decide
 
 /-- "either reports an error or delivers trees", single-tree entry points: `ok` always comes with a record -/
 theorem single_reports_or_delivers (b : List UInt8) (ps : List Readers.Clade) (v : String) (n : Readers.NsNode) :
